@@ -1,1 +1,212 @@
-import CnlModel.Basic
+import CnlProofs.Bits
+/-!
+# C18 — bit and digit-counting utilities match the C++20 `<bit>` definitions everywhere
+
+Model: `CnlModel.Bits` (transcription of `cnl/bit.h`, `cnl/numeric.h`, `cnl/_impl/used_digits.h`;
+built-in arithmetic through `CnlModel.CInt`).  Spec: `CnlSpec.Bits` (`Nat.log2`, `Nat.testBit`,
+bit patterns — no C++).  `c : Cfg` ranges over the code configurations (GCC intrinsic
+specialisations / Clang / generic definitions only), `w` over **all** widths `≥ 1`, `x` over all
+`w`-bit patterns, `s` over all rotation counts, `T` over all built-in integer types of any width and
+signedness, `v` over all values of `T`.  A theorem `f … = .ok r` says both that the function returns
+`r` and that its evaluation executes no undefined behaviour (`Res.ub`), does not reach a compiler
+intrinsic at an undefined argument, and terminates.
+
+The two defects the check found in the unrepaired tree (`rotl`/`rotr` shifting by the full width;
+GCC `countr_zero(0u)` calling `__builtin_ctz(0)`) were repaired in /repo (`fix:` commits); the
+definitions as found are kept as `Bits.AsFound.*` and refuted below (`*_as_found_*`).
+
+`ceil2`: the documented deviation `ceil2 0 = 0` is part of the spec; for `x > 2^(w-1)` the least power of
+two `≥ x` is not representable and the property (like `std::bit_ceil`) does not constrain the call
+— `ceil2_out_of_contract` records what the code does there for the widths that do not promote.
+-/
+namespace Cnl.C18
+open Cnl Cnl.Bits
+
+/-! ## `<bit>` functions -/
+
+/-- `countl_zero x = w − bit_width x`, every configuration -/
+theorem countl_zero_correct (c : Cfg) (w x : Nat) (hx : x < 2^w) :
+    countlZero c w x = .ok ((Spec.Bits.countlZero w x : Nat) : Int) := by
+  rw [countlZero_eq c w x hx]
+  have := bitLength_le x w hx
+  unfold Spec.Bits.countlZero
+  congr 1; omega
+
+/-- `countr_zero x` = length of the run of 0-bits from bit 0 (`w` for `x = 0`), every configuration -/
+theorem countr_zero_correct (c : Cfg) (w x : Nat) (hx : x < 2^w) :
+    countrZero c w x = .ok ((Spec.Bits.countrZero w x : Nat) : Int) :=
+  countrZero_eq c w x hx
+
+/-- `countl_one x = countl_zero (~x)` -/
+theorem countl_one_correct (c : Cfg) (w x : Nat) (hw : 1 ≤ w) (hx : x < 2^w) :
+    countlOne c w x = .ok ((Spec.Bits.countlOne w x : Nat) : Int) :=
+  countlOne_eq_spec c w x hw hx
+
+/-- `countr_one x` = length of the run of 1-bits from bit 0, every configuration (`unsigned int` goes through
+`countr_zero(~x)`, narrower types recurse in `int`) -/
+theorem countr_one_correct (c : Cfg) (w x : Nat) (hx : x < 2^w) :
+    countrOne c w x = .ok ((Spec.Bits.countrOne w x : Nat) : Int) :=
+  countrOne_eq c w x hx
+
+/-- `popcount x` = number of set bits among the `w` -/
+theorem popcount_correct (c : Cfg) (w x : Nat) (hx : x < 2^w) :
+    popcount c w x = .ok ((Spec.Bits.popcount w x : Nat) : Int) :=
+  popcount_eq c w x hx
+
+/-- `ispow2 x` ⇔ `x` is a power of two (`std::has_single_bit`) -/
+theorem ispow2_correct (w x : Nat) (hx : x < 2^w) : ispow2 w x = .ok (Spec.Bits.isPow2 x) :=
+  ispow2_eq w x hx
+
+/-- `log2p1 x = bit_width x` -/
+theorem log2p1_correct (c : Cfg) (w x : Nat) (hx : x < 2^w) :
+    log2p1 c w x = .ok ((Spec.Bits.bitLength x : Nat) : Int) :=
+  log2p1_eq c w x hx
+
+/-- `floor2 x = bit_floor x` (0 for 0, else `2^⌊log₂ x⌋`) -/
+theorem floor2_correct (c : Cfg) (w x : Nat) (hx : x < 2^w) :
+    floor2 c w x = .ok (Spec.Bits.floor2 x) :=
+  floor2_eq c w x hx
+
+/-- `ceil2 x` = least power of two `≥ x` whenever that is representable (`x ≤ 2^(w−1)`), and `ceil2 0 = 0` -/
+theorem ceil2_correct (c : Cfg) (w x : Nat) (hw : 1 ≤ w) (hx : x ≤ 2^(w-1)) :
+    (ceil2 c w x).map some = .ok (Spec.Bits.ceil2 w x) :=
+  ceil2_eq c w x hw hx
+
+/-- the documented deviation from `std::bit_ceil` -/
+theorem ceil2_zero (c : Cfg) (w : Nat) : ceil2 c w 0 = .ok 0 := by simp [ceil2]
+
+/-- outside the contract (`x > 2^(w−1)`, as for `std::bit_ceil`) the code shifts `T{1}` by the full width:
+undefined for the operand types that do not promote (`w ≥ 32`); 8/16-bit operands yield 0.  Not a violation of
+the property (which does not constrain these calls); recorded so that the out-of-contract lines of the
+correspondence check are explained. -/
+theorem ceil2_out_of_contract (c : Cfg) (w x : Nat) (hw : 32 ≤ w) (hlo : 2^(w-1) < x) (hx : x < 2^w) :
+    ceil2 c w x = .ub .shiftCount := by
+  have hp : 0 < 2^(w-1) := Nat.pow_pos (by decide)
+  have h0 : x ≠ 0 := by omega
+  unfold ceil2
+  simp only [ne_eq, h0, not_false_eq_true, if_true]
+  rw [sub_one_cast w x hx h0]
+  simp only [Res.bind_ok, Int.toNat_natCast]
+  rw [countlZero_eq c w (x-1) (by omega), bitLength_eq_of_range (x-1) w (by omega) (by omega) (by omega)]
+  simp only [Res.bind_ok]
+  have e : ((w:Int) - ((w:Int) - (w:Nat))) = ((w:Nat):Int) := by omega
+  rw [e, cBin_shl_ub (uT w) 1 i32 w (by rw [promote_uT_ge hw]; exact Nat.le_refl _)]
+  rfl
+
+/-- `rotl x s` rotates the `w`-bit pattern left by `s` — any `s`, including 0 and the multiples of `w` -/
+theorem rotl_correct (w x s : Nat) (hw : 1 ≤ w) (hx : x < 2^w) :
+    rotl w x s = .ok (Spec.Bits.rotl w x s) :=
+  rotl_eq w x s hw hx
+
+theorem rotr_correct (w x s : Nat) (hw : 1 ≤ w) (hx : x < 2^w) :
+    rotr w x s = .ok (Spec.Bits.rotr w x s) :=
+  rotr_eq w x s hw hx
+
+/-! ## CNL's digit-counting functions -/
+
+/-- `used_digits v` (radix 2) is the bit length of `v` for `v ≥ 0` and of `−v−1` for `v < 0`, for every
+built-in type (any width, either signedness) and every value of it -/
+theorem used_digits_correct (T : IntTy) (v : Int) (h : T.InRange v) :
+    usedDigits T v 2 = .ok ((Spec.Bits.valueBits v : Nat) : Int) :=
+  usedDigits_eq T v h
+
+theorem used_digits_nonneg (T : IntTy) (v : Int) (h : T.InRange v) (h0 : 0 ≤ v) :
+    usedDigits T v 2 = .ok ((Spec.Bits.bitLength v.toNat : Nat) : Int) := by
+  rw [usedDigits_eq T v h]
+  have : ¬ (v < 0) := by omega
+  simp [Spec.Bits.valueBits, this]
+
+theorem used_digits_neg (T : IntTy) (v : Int) (h : T.InRange v) (h0 : v < 0) :
+    usedDigits T v 2 = .ok ((Spec.Bits.bitLength (-v - 1).toNat : Nat) : Int) := by
+  rw [usedDigits_eq T v h]
+  simp [Spec.Bits.valueBits, h0]
+
+/-- `countl_rsb v` = number of redundant sign bits `(w − 1) − valueBits v`, every configuration -/
+theorem countl_rsb_correct (c : Cfg) (w : Nat) (hw : 1 ≤ w) (v : Int) (h : (sT w).InRange v) :
+    countlRsb c w v = .ok (Spec.Bits.countlRsb w v) :=
+  countlRsb_eq c w hw v h
+
+/-- `countl_rb` is `countl_rsb` on signed and `countl_zero` on unsigned operands -/
+theorem countl_rb_signed_correct (c : Cfg) (w : Nat) (hw : 1 ≤ w) (v : Int) (h : (sT w).InRange v) :
+    countlRb c (sT w) v = .ok (Spec.Bits.countlRsb w v) :=
+  countlRb_signed c w hw v h
+
+theorem countl_rb_unsigned_correct (c : Cfg) (w x : Nat) (hx : x < 2^w) :
+    countlRb c (uT w) (x:Int) = .ok ((Spec.Bits.countlZero w x : Nat) : Int) := by
+  rw [countlRb_unsigned c w x hx]
+  have := bitLength_le x w hx
+  unfold Spec.Bits.countlZero
+  congr 1; omega
+
+/-- `countr_used v` = the value bits: `bit_width x` for unsigned, `valueBits v` for signed operands -/
+theorem countr_used_signed_correct (c : Cfg) (w : Nat) (hw : 1 ≤ w) (v : Int) (h : (sT w).InRange v) :
+    countrUsed c (sT w) v = .ok ((Spec.Bits.valueBits v : Nat) : Int) :=
+  countrUsed_signed c w hw v h
+
+theorem countr_used_unsigned_correct (c : Cfg) (w x : Nat) (hx : x < 2^w) :
+    countrUsed c (uT w) (x:Int) = .ok ((Spec.Bits.bitLength x : Nat) : Int) :=
+  countrUsed_unsigned c w x hx
+
+/-- Not proved (only compared with the oracle `Spec.Bits.radixDigits` on the harness inputs, radix 3, 10, 16):
+`used_digits(v, radix)` for a radix other than 2 is the number of radix-`r` digits.  The property speaks of
+bit lengths only (radix 2, proved above at full strength). -/
+def FullUsedDigitsRadix : Prop :=
+  ∀ (T : IntTy) (v : Int) (r : Nat), T.InRange v → 2 ≤ r → (r:Int) ≤ i32.max →
+    usedDigits T v r = .ok ((Spec.Bits.radixDigits r (if v < 0 then -v - 1 else v).toNat (T.bits + 1) : Nat) : Int)
+
+/-- `leading_bits v = digits − used_digits v` -/
+theorem leading_bits_correct (T : IntTy) (v : Int) (h : T.InRange v) :
+    leadingBits T v = .ok (Spec.Bits.leadingBits T.bits T.signed v) :=
+  leadingBits_eq T v h
+
+/-- `trailing_bits v` = number of trailing 0-bits of the object representation, 0 for 0 -/
+theorem trailing_bits_correct (c : Cfg) (T : IntTy) (v : Int) :
+    trailingBits c T v = .ok ((Spec.Bits.trailingBits T.bits v : Nat) : Int) :=
+  trailingBits_eq c T v
+
+/-! ## the spec's `bitLength` is the bit width (sanity of the statement side) -/
+
+theorem bitLength_spec (x : Nat) :
+    x < 2 ^ Spec.Bits.bitLength x ∧ (x ≠ 0 → 2 ^ (Spec.Bits.bitLength x - 1) ≤ x) :=
+  ⟨lt_two_pow_bitLength x, two_pow_le_of_ne x⟩
+
+/-- every count is at most the width (so the `int` arithmetic of the code cannot overflow) -/
+theorem counts_le_width (w x : Nat) (hx : x < 2^w) :
+    Spec.Bits.countlZero w x ≤ w ∧ Spec.Bits.countlOne w x ≤ w ∧ Spec.Bits.countrZero w x ≤ w ∧
+    Spec.Bits.countrOne w x ≤ w ∧ Spec.Bits.popcount w x ≤ w ∧ Spec.Bits.bitLength x ≤ w := by
+  refine ⟨Nat.sub_le _ _, Nat.sub_le _ _, run_le _ _ _, run_le _ _ _, ?_, bitLength_le x w hx⟩
+  rw [← ones_eq]; exact ones_le w x
+
+theorem value_bits_le_digits (w : Nat) (hw : 1 ≤ w) (v : Int) (h : (sT w).InRange v) :
+    Spec.Bits.valueBits v ≤ w - 1 :=
+  valueBits_le w hw v h
+
+/-! ## the definitions as found (before the `fix:` commits) violate the property -/
+
+/-- `rotl(1u, 0)` shifted a 32-bit operand by 32 -/
+theorem rotl_as_found_undefined : AsFound.rotl 32 1 0 = .ub .shiftCount := by decide
+theorem rotr_as_found_undefined : AsFound.rotr 64 5 128 = .ub .shiftCount := by decide
+/-- … while 8/16-bit operands were promoted first, so the same expression was defined and right -/
+theorem rotl_as_found_small_ok : AsFound.rotl 8 129 8 = .ok 129 := by decide
+/-- GCC: `countr_zero(0u)` called `__builtin_ctz(0)`; so did `countr_one(0xFFFFFFFFu)` -/
+theorem countr_zero_as_found_undefined : AsFound.countrZero ⟨true, false⟩ 32 0 = .ub .intrinsicArg := by decide
+theorem countr_one_as_found_undefined : AsFound.countrOne ⟨true, false⟩ 32 4294967295 = .ub .intrinsicArg := by decide
+
+/-! ## non-vacuity -/
+example : rotl 32 1 0 = .ok 1 := by decide
+example : rotl 32 2147483649 33 = .ok 3 := by decide
+example : rotr 64 5 128 = .ok 5 := by decide
+example : countrZero ⟨true, false⟩ 32 0 = .ok 32 := by decide
+example : countlZero ⟨false, false⟩ 16 300 = .ok 7 := by decide
+example : usedDigits i8 (-128) 2 = .ok 7 := by decide
+example : countlRsb ⟨true, true⟩ 32 (-1) = .ok 31 := by decide
+example : countlOne ⟨false, false⟩ 8 240 = .ok 4 := by decide
+example : countrOne ⟨true, false⟩ 32 4294967295 = .ok 32 := by decide
+example : popcount ⟨false, false⟩ 16 65535 = .ok 16 := by decide
+example : ispow2 64 4096 = .ok true := by decide
+example : usedDigits u16 65535 2 = .ok 16 := by decide
+example : ceil2 ⟨true, true⟩ 32 2147483647 = .ok 2147483648 := by decide
+example : floor2 ⟨true, false⟩ 64 1000 = .ok 512 := by decide
+example : (2:Nat)^31 < 2^32 ∧ i8.InRange (-128) := by decide
+
+end Cnl.C18
